@@ -167,19 +167,32 @@ impl ClusterCompressor {
 
     pub fn run(mut self) -> std::io::Result<()> {
         while let Ok(cluster) = self.input.recv() {
+            #[cfg(jubako_verif)]
+            crate::verif::emit("PTake", 0, cluster.index.into_u64(), 0);
             //[TODO] Avoid allocation. Reuse the data once it is written ?
             let mut data = Vec::<u8>::with_capacity(1024 * 1024);
             let mut cursor = std::io::Cursor::new(&mut data);
             let cluster_idx = cluster.index;
             let sized_offset = self.compress_cluster(cluster, &mut cursor)?;
+            #[cfg(jubako_verif)]
+            crate::verif::emit(
+                "PDone",
+                data.len() as u64,
+                cluster_idx.into_u64(),
+                sized_offset.offset.into_u64(),
+            );
             self.output
                 .send(WriteTask::Compressed(data, sized_offset, cluster_idx))
                 .unwrap();
             let (count, cvar) = &*self.nb_cluster_in_queue;
             let mut count = count.lock().unwrap();
             *count -= 1;
+            #[cfg(jubako_verif)]
+            crate::verif::emit("PDec", 0, cluster_idx.into_u64(), *count as u64);
             cvar.notify_one();
         }
+        #[cfg(jubako_verif)]
+        crate::verif::emit("PWorkerExit", 0, 0, 0);
         drop(self.output);
         Ok(())
     }
@@ -257,6 +270,8 @@ where
 
     pub fn run(mut self) -> std::io::Result<(O, Vec<Late<SizedOffset>>)> {
         while let Ok(task) = self.input.recv() {
+            #[cfg(jubako_verif)]
+            let verif_start = self.file.tell().into_u64();
             let (sized_offset, idx) = match task {
                 WriteTask::Cluster(cluster) => {
                     let cluster_idx = cluster.index;
@@ -270,12 +285,28 @@ where
                 }
             };
             self.progress.handle_cluster_written(idx.into_u32());
+            #[cfg(jubako_verif)]
+            crate::verif::emit(
+                "PWrite",
+                verif_start,
+                idx.into_u64(),
+                sized_offset.offset.into_u64(),
+            );
             let idx = idx.into_usize();
             if self.cluster_addresses.len() <= idx {
                 self.cluster_addresses.resize(idx + 1, Default::default());
             }
             self.cluster_addresses[idx].set(sized_offset);
+            #[cfg(jubako_verif)]
+            crate::verif::emit(
+                "PAddr",
+                self.file.tell().into_u64(),
+                idx as u64,
+                self.cluster_addresses.len() as u64,
+            );
         }
+        #[cfg(jubako_verif)]
+        crate::verif::emit("PWriterExit", 0, 0, self.cluster_addresses.len() as u64);
         Ok((
             self.file.into_inner().map_err(|e| e.into_error())?,
             self.cluster_addresses,
@@ -355,10 +386,19 @@ impl<O: OutStream + 'static> ClusterWriterProxy<O> {
                 .wait_while(count.lock().unwrap(), |c| *c >= self.max_queue_size)
                 .unwrap();
             *count += 1;
+            #[cfg(jubako_verif)]
+            crate::verif::emit(
+                "PDispatch",
+                self.max_queue_size as u64,
+                cluster.index.into_u64(),
+                *count as u64,
+            );
             self.dispatch_tx
                 .send(cluster)
                 .expect("Receiver should not be closed");
         } else {
+            #[cfg(jubako_verif)]
+            crate::verif::emit("PRaw", 0, cluster.index.into_u64(), 0);
             self.fusion_tx
                 .send(cluster.into())
                 .expect("Receiver should not be closed");
@@ -367,6 +407,8 @@ impl<O: OutStream + 'static> ClusterWriterProxy<O> {
     }
 
     pub fn finalize(self) -> std::io::Result<(O, Vec<Late<SizedOffset>>)> {
+        #[cfg(jubako_verif)]
+        crate::verif::emit("PClose", 0, self.worker_threads.len() as u64, 0);
         drop(self.dispatch_tx);
         drop(self.fusion_tx);
         for thread in self.worker_threads {
